@@ -514,3 +514,56 @@ def date_texts(a, lang, all_names=False, salt=0):
                 seen.add(t)
                 out.append(("%s.%s%d" % (sp, kind, i), t))
     return out
+
+
+# ---------------------------------------------------------------------------------------------
+# money and percentages (C05, C06)
+# ---------------------------------------------------------------------------------------------
+def rated_currencies():
+    return sorted(k.lower() for k in config_json().get("currency_rates", {}))
+
+
+def currency_spellings(code):
+    """alias-table spellings of a currency: {'symbols': [...], 'words': [...]} (the code itself is always a word)"""
+    al = config_json().get("currency_alias", {})
+    syms, words = [], []
+    for s, c in al.items():
+        if c.lower() != code:
+            continue
+        if s.isascii() and s.isalpha():
+            if s.lower() != code:
+                words.append(s)
+        elif not any(ch.isalnum() for ch in s):
+            syms.append(s)
+        # aliases with non-ASCII letters (e.g. Cyrillic) are word aliases too
+        elif s.isalpha():
+            words.append(s)
+    return {"symbols": syms, "words": words}
+
+
+def money_texts(q, code, cfg, every=False, salt=0, suffix=""):
+    """spellings of an amount of money; q is the amount *before* the suffix is applied"""
+    n = number_text(q_fraction(q), cfg["dec"], cfg["tho"]) + suffix
+    sp = currency_spellings(code)
+    out = [("code", "%s %s" % (n, code)), ("CODE", "%s %s" % (n, code.upper())), ("glued", "%s%s" % (n, code)) if not suffix else ("code2", "%s  %s" % (n, code))]
+    for s in sp["symbols"]:
+        out.append(("sym_before", "%s%s" % (s, n)))
+        out.append(("sym_after", "%s %s" % (n, s)))
+        if not suffix:
+            out.append(("sym_glued", "%s%s" % (n, s)))
+    for w in sp["words"]:
+        out.append(("alias", "%s %s" % (n, w)))
+    if every:
+        return out
+    return [out[salt % len(out)]]
+
+
+def pct_text(p, cfg, style):
+    n = number_text(q_fraction(p), cfg["dec"], cfg["tho"])
+    return n + "%" if style == "after" else "%" + n
+
+
+def operand_texts(x, cfg, every=False, salt=0):
+    if x["cur"] == "":
+        return [("num", number_text(q_fraction(x["q"]), cfg["dec"], cfg["tho"]))]
+    return money_texts(x["q"], x["cur"], cfg, every, salt)
